@@ -374,6 +374,7 @@ def in_lang(zre, s):
     """Concrete membership decided by z3 (used for translator validation)."""
     v = z3.String('s')
     sol = z3.Solver()
+    sol.set('timeout', 30000)
     sol.add(v == sval(s), z3.InRe(v, zre))
     r = str(sol.check())
     if r == 'unknown':
